@@ -7,7 +7,7 @@ bak=/tmp/mutate.bak.$$
 cp "$f" $bak
 ev=/verif/evidence/$id.json
 [ -f $ev ] && cp $ev $bak.ev
-trap 'cp $bak "$f"; rm -f $bak; [ -f $bak.ev ] && mv $bak.ev $ev' EXIT
+trap 'cp $bak "$f"; rm -f $bak; [ -f $bak.ev ] && mv $bak.ev $ev' EXIT INT TERM
 perl -0pi -e "$expr" "$f"
 if cmp -s "$f" $bak; then echo "MUTATION DID NOT APPLY"; exit 3; fi
 (cd /repo && git diff --stat -- "$1" | tail -1)
